@@ -84,7 +84,11 @@ def parseSlotRows : List String → Option (List Nat × List (Option Bytes))
 
 def parseMinted (ws : List String) : Option (List (Nat × Bytes)) :=
   ws.mapM fun w => match w.splitOn ":" with
-    | [h, l] => do let hv ← parseNat? h; let lb ← parseHex l; pure (hv, lb)
+    | [h, l] => do
+        let hv ← parseNat? h
+        -- `?`: the harness could not read CKA_LABEL of the minted handle through this session
+        let lb ← if l == "?" then some [0xFF, 0x3F, 0xFF] else parseHex l
+        pure (hv, lb)
     | _ => none
 
 /-- `op` = tokens of the operation line, `res` = tokens of the result line after `=` -/
